@@ -799,6 +799,8 @@ func (m *Dense) RankOne(a Matrix, alpha float64, x, y Vector) {
 		aU, _ := untransposeExtract(a)
 		if rm, ok := aU.(*Dense); ok {
 			m.checkOverlap(rm.RawMatrix())
+		} else {
+			m.checkOverlapMatrix(aU)
 		}
 	}
 
